@@ -303,6 +303,17 @@ func (g *gen) action(a *Asm, idx int) Action {
 		revBias = 10
 	}
 	_ = revBias
+	if g.o.Focus == "revert" && idx < NContracts/2 && g.chance(30) {
+		// call one of the "send, then fail" libraries with ample gas and ignore the result
+		op := []vm.OpCode{vm.CALL, vm.CALLCODE, vm.DELEGATECALL}[g.pick(3)]
+		lib := NContracts/2 + g.pick(NContracts-NContracts/2)
+		a.Push(0).Push(0).Push(0).Push(0)
+		if op != vm.DELEGATECALL {
+			a.Push(0)
+		}
+		a.PushAddr(ContractAddr(lib)).Push(600000).Op(op, vm.POP)
+		return Action{op.String(), []string{fmt.Sprintf("C%d", lib), "0", "600000", "0", "0", "0", "0", "pop"}}
+	}
 	switch {
 	case w < 14:
 		k, v := Slots[g.pick(len(Slots))], uint64(g.pick(3))
@@ -525,6 +536,32 @@ func (g *gen) lockupInput(idx int) []byte {
 func (g *gen) contract(idx int) ([]byte, []Action) {
 	a := new(Asm)
 	var plan []Action
+	if g.o.Focus == "revert" && idx >= NContracts/2 && g.chance(45) {
+		// a "library" that performs a well-formed send and then fails: whoever CALLs or
+		// DELEGATECALLs it must not keep the send
+		kind := g.pick(3)
+		switch kind {
+		case 0:
+			a.Push(0).Push(0).Push(0).Push(0).Push(1).Push(0).Push(params.TxGas).Push(uint64(1000+g.pick(1000))).PushAddr(ExtZone).Push(0).Op(vm.ETX, vm.POP)
+			plan = append(plan, Action{"ETX", []string{"ExtZone", "small", "21000", "0", "1", "0", "0", "empty", "0", "0"}})
+		case 1:
+			a.Push(params.TxGas).PushBig(params.MinQuaiConversionAmount).PushAddr(QiLocal).Push(0).Op(vm.CONVERT, vm.POP)
+			plan = append(plan, Action{"CONVERT", []string{"QiLocal", "min", "21000"}})
+		default:
+			in := g.lockupInput(idx)
+			a.MStoreBytes(0, in)
+			a.Push(0).Push(0).Push(uint64(len(in))).Push(0).Push(0).PushAddr(Lockup).Push(400000).Op(vm.CALL, vm.POP)
+			plan = append(plan, Action{"CALL", []string{"Lockup", "0", "400000", "0", fmt.Sprint(len(in)), "0", "0", "pop"}})
+		}
+		if g.chance(70) {
+			a.Op(vm.PUSH0, vm.PUSH0, vm.REVERT)
+			plan = append(plan, Action{"REVERT", nil})
+		} else {
+			a.Raw([]byte{0xfe})
+			plan = append(plan, Action{"INVALID", nil})
+		}
+		return a.B, plan
+	}
 	n := 1 + g.pick(6)
 	for i := 0; i < n; i++ {
 		plan = append(plan, g.action(a, idx))
@@ -626,6 +663,9 @@ func GenCase(r *rand.Rand, id int, o GenOpts) *Case {
 		c.to = &t
 	default:
 		t := ContractAddr(g.pick(NContracts))
+		if o.Focus == "revert" && g.chance(70) {
+			t = ContractAddr(g.pick(NContracts / 2)) // a caller of the failing libraries
+		}
 		c.to = &t
 	}
 	if c.to != nil {
@@ -644,6 +684,9 @@ func GenCase(r *rand.Rand, id int, o GenOpts) *Case {
 		c.Gas = params.TxGas + uint64(g.pick(30000))
 	default:
 		c.Gas = 200000 + uint64(g.pick(3000000))
+		if o.Focus == "revert" {
+			c.Gas += 1500000
+		}
 	}
 	c.Data = fmt.Sprintf("%x", c.data)
 	switch x := g.pick(10); {
@@ -667,7 +710,7 @@ func GenCase(r *rand.Rand, id int, o GenOpts) *Case {
 
 // AllAddrs is the enumerable account universe (plus whatever an execution creates).
 func AllAddrs() []common.Address {
-	out := []common.Address{Sender, EOA2, FreshEOA, Coinbase, Miner, ExtZone, ExtRegion, QiLocal, QiForeign, Lockup}
+	out := []common.Address{Sender, EOA2, FreshEOA, Coinbase, Miner, ExtZone, ExtRegion, QiLocal, QiForeign, Lockup, common.ZeroAddress(Loc)}
 	for i := 0; i < NContracts; i++ {
 		out = append(out, ContractAddr(i))
 	}
